@@ -2,11 +2,11 @@
 # usage: tools/confirm_seed.sh <worktree dir> -> confirms (baseline passes with the change; demo fails with, passes without)
 D=$1
 cd $D || exit 2
-git checkout -q -- efootprint
+git checkout -q -- efootprint; git checkout -q --detach main
 git apply _seed/patch.diff || exit 2
 /venv/bin/python /tmp/seedtools/baseline.py $D > _seed/confirm_baseline.log 2>&1; B=$?
 PYTHONPATH=$D timeout 900 /venv/bin/python _seed/demo.py > _seed/confirm_demo_with.log 2>&1; W=$?
-git checkout -q -- efootprint
+git checkout -q -- efootprint; git checkout -q --detach main
 PYTHONPATH=$D timeout 900 /venv/bin/python _seed/demo.py > _seed/confirm_demo_without.log 2>&1; WO=$?
 echo "baseline_with_change_exit=$B demo_with_change_exit=$W demo_without_change_exit=$WO"
 tail -1 _seed/confirm_baseline.log
